@@ -52,21 +52,33 @@ Proj2 == << <<A("k"), A("v"), B("k"), B("v")>>,
             <<B("v"), A("k")>>,
             <<B("k"), B("v"), A("k"), A("v")>> >>
 Q2(j, on, w, p) == [n |-> 2, j1 |-> j, on1 |-> on, j2 |-> "", on2 |-> <<>>, where |-> w, proj |-> p]
-NJoin2 == Len(Types2) * Len(On2) * Len(Where2) * Len(Proj2)
-NCross2 == 2 * Len(Where2) * Len(Proj2)
-NQ2 == NJoin2 + NCross2
-\* mixed-radix decoding keeps the catalogue a SEQUENCE (a stable numbering the renderer can rely on)
+\* the catalogue is a SEQUENCE (a stable numbering the renderer can rely on), decoded by mixed radix from
+\*   segment 1: type x ON x WHERE with the natural select list
+\*   segment 2: type x ON x {no WHERE, a.v <= b.v} with the two permuted select lists
+\*   segment 3: cross / comma x WHERE x all select lists
+WhereP == <<1, 4>>
+NSeg1 == Len(Types2) * Len(On2) * Len(Where2)
+NSeg2 == Len(Types2) * Len(On2) * Len(WhereP) * 2
+NSeg3 == 2 * Len(Where2) * Len(Proj2)
+NQ2 == NSeg1 + NSeg2 + NSeg3
 Query2(i) ==
-    IF i <= NJoin2
+    IF i <= NSeg1
     THEN LET x == i - 1
-             p == (x % Len(Proj2)) + 1
-             y == x \div Len(Proj2)
-             w == (y % Len(Where2)) + 1
-             z == y \div Len(Where2)
+             w == (x % Len(Where2)) + 1
+             z == x \div Len(Where2)
              o == (z % Len(On2)) + 1
              t == (z \div Len(On2)) + 1
-         IN Q2(Types2[t], On2[o], Where2[w], Proj2[p])
-    ELSE LET x == i - NJoin2 - 1
+         IN Q2(Types2[t], On2[o], Where2[w], Proj2[1])
+    ELSE IF i <= NSeg1 + NSeg2
+    THEN LET x == i - NSeg1 - 1
+             p == (x % 2) + 2
+             y == x \div 2
+             w == (y % Len(WhereP)) + 1
+             z == y \div Len(WhereP)
+             o == (z % Len(On2)) + 1
+             t == (z \div Len(On2)) + 1
+         IN Q2(Types2[t], On2[o], Where2[WhereP[w]], Proj2[p])
+    ELSE LET x == i - NSeg1 - NSeg2 - 1
              p == (x % Len(Proj2)) + 1
              y == x \div Len(Proj2)
              w == (y % Len(Where2)) + 1
@@ -102,7 +114,11 @@ Query3(i) ==
 (* ---------------- cases ---------------- *)
 H(s) == Len(s) * 101 + (IF Len(s) >= 1 THEN s[1] * 7 ELSE 0) + (IF Len(s) >= 2 THEN s[2] * 37 ELSE 0)
         + (IF Len(s) >= 3 THEN s[3] * 53 ELSE 0)
-Sel2(x, y) == Stride = 1 \/ ((H(x) * 13 + H(y) * 29 + Seed * 17) % Stride = 0) \/ (Len(x) = 0 /\ Len(y) <= 1) \/ (Len(y) = 0 /\ Len(x) <= 1)
+\* always selected: an empty side; the same table with a duplicated key on both sides (duplicate rows, NULL keys)
+DupKeyTable(x) == Len(x) >= 2 /\ RowK(x[1]) = RowK(x[2])
+Sel2(x, y) == \/ Stride = 1 \/ ((H(x) * 13 + H(y) * 29 + Seed * 17) % Stride = 0)
+              \/ (Len(x) = 0 /\ Len(y) <= 1) \/ (Len(y) = 0 /\ Len(x) <= 1)
+              \/ (x = y /\ DupKeyTable(x) /\ Len(x) = 2)
 Sel3(x, y, z) == Stride3 # 0 /\ (Stride3 = 1 \/ ((H(x) * 13 + H(y) * 29 + H(z) * 31 + Seed * 17) % Stride3 = 0))
 
 Init == phase = 0 /\ ta = <<>> /\ tb = <<>> /\ tc = <<>>
@@ -196,10 +212,10 @@ NullNeverMatches == phase = 2 =>
 ImplIsRef == /\ phase = 2 => \A i \in 1..NQ2 : Impl(Query2(i), {}, T2, 1) = Ref(Query2(i), T2)
              /\ phase = 3 => \A i \in 1..NQ3 : Impl(Query3(i), {}, T3, 1) = Ref(Query3(i), T3)
 ScaleLawHolds ==
-    /\ phase = 2 => \A i \in 1..NQ2 : \A r \in 1..RCheck :
+    /\ phase = 2 => \A i \in 1..NQ2 : \A r \in 2..RCheck :
           /\ ScaleLaw(Query2(i), T2, r)
           /\ \A k \in SUBSET Applicable(Query2(i)) : Impl(Query2(i), k, ScaleAll(T2, r), 1) = Impl(Query2(i), k, T2, r)
-    /\ phase = 3 => \A i \in 1..NQ3 : \A r \in 1..RCheck : ScaleLaw(Query3(i), T3, r)
+    /\ phase = 3 => \A i \in 1..NQ3 : \A r \in 2..RCheck : ScaleLaw(Query3(i), T3, r)
 \* 3-way: joining c last with a cross join multiplies; an inner 3-way join is the filtered cross product
 ThreeWay == phase = 3 =>
     /\ BagSize(Ref(Query3(NJoin3 + 1), T3)) = Len(ta) * Len(tb) * Len(tc)
